@@ -420,7 +420,9 @@ func c13Repeat(c *rep.Ctx) {
 					c.Violation("C13|result-depends-on-earlier-calls|"+k, fmt.Sprintf("%s, observation %s:\n got: %s %s\nwant: %s", desc, k, got, p, want), R, nil)
 				}
 			}
-			out, err, p := sut.Output(c13MdDoc, ms())
+			var out string
+			var err error
+			p := guardMaybeMassive(true, func() { out, err, _ = sut.Output(c13MdDoc, ms()) })
 			if p != "" || err != nil || out != c13MdWant {
 				c.Violation("C13|result-depends-on-earlier-calls|massive-markdown", fmt.Sprintf("%s: massive OutputFromMarkdown gives %q err=%v %s", desc, out, err, p), R, nil)
 			}
